@@ -92,7 +92,11 @@ package jid
 //@     invariant 0 <= i && i <= len(j.data) && len(j.data) == len(j2.data)
 //@     invariant forall k int :: 0 <= k && k < i ==> j.data[k] == j2.data[k]
 
+// strOf: the string form as a function of the value (String is deterministic).
+//@ spec strOf(j JID) string
 //@ func (JID).String
+//@   pure
+//@   defines result == strOf(j)
 //@   ensures[C11] len(result) == len(j.data) + ite(j.locallen > 0, 1, 0) + ite(len(j.data) > j.locallen + j.domainlen, 1, 0)
 //@   ensures[C11] forall k int :: 0 <= k && k < j.locallen ==> result[k] == j.data[k]
 //@   ensures[C11] j.locallen > 0 ==> result[j.locallen] == '@'
